@@ -224,7 +224,8 @@ def match_finding(v, findings):
 # a check run
 
 class Run(object):
-    def __init__(self, pid, tier, seed, level="model_checking"):
+    def __init__(self, pid, tier, seed, level="model_checking", is_replay=False):
+        self.is_replay = is_replay
         self.pid = pid
         self.tier = tier
         self.seed = seed
@@ -246,7 +247,8 @@ class Run(object):
         self.workdir = os.path.join(WORK, pid)
         shutil.rmtree(self.workdir, ignore_errors=True)
         os.makedirs(self.workdir, exist_ok=True)
-        shutil.rmtree(os.path.join(REPLAYS, pid), ignore_errors=True)
+        if not is_replay:       # the file being replayed lives there
+            shutil.rmtree(os.path.join(REPLAYS, pid), ignore_errors=True)
 
     # model checking of the design
     def mc(self, module, cfg=None, **kw):
@@ -291,7 +293,8 @@ class Run(object):
         for what, vs in sorted(known.items()):
             print("KNOWN-FINDING: property=%s %s (%d matching observations, e.g. clause=%s sig=%s)"
                   % (self.pid, what, len(vs), vs[0].clause, vs[0].sig))
-        os.makedirs(os.path.join(REPLAYS, self.pid), exist_ok=True)
+        rdir = os.path.join(REPLAYS, self.pid, "replayed") if self.is_replay else os.path.join(REPLAYS, self.pid)
+        os.makedirs(rdir, exist_ok=True)
         seen = set()
         nprint = 0
         per_clause = {}
@@ -300,7 +303,7 @@ class Run(object):
             if k in seen:
                 continue
             seen.add(k)
-            path = os.path.join(REPLAYS, self.pid, "%s_%03d.json" % (re.sub(r"[^A-Za-z0-9_.-]", "_", v.clause)[:60], len(seen)))
+            path = os.path.join(rdir, "%s_%03d.json" % (re.sub(r"[^A-Za-z0-9_.-]", "_", v.clause)[:60], len(seen)))
             with open(path, "w") as f:
                 json.dump({"property": self.pid, "clause": v.clause, "sig": v.sig, "detail": v.detail,
                            "scenario": v.replay}, f, indent=1, default=str)
@@ -330,8 +333,10 @@ class Run(object):
         ev = {"property_id": self.pid, "tier": self.tier, "seed": int(self.seed), "level": self.level,
               "coverage": cov, "assumptions": self.assumptions, "wall_s": round(time.time() - self.t0, 2),
               "violations": len(seen)}
-        os.makedirs(EVID, exist_ok=True)
-        with open(os.path.join(EVID, self.pid + ".json"), "w") as f:
+        # a --replay run re-executes one recorded violation: it must not replace the evidence of the last full run
+        evid = os.path.join(WORK, "replay_evidence") if getattr(self, "is_replay", False) else EVID
+        os.makedirs(evid, exist_ok=True)
+        with open(os.path.join(evid, self.pid + ".json"), "w") as f:
             json.dump(ev, f, indent=1, default=str)
         print("%s tier=%s seed=%s: mc states=%d, judge states=%d, traces=%d, evaluations=%d, nontrivial=%d, "
               "known=%d, violations=%d, wall=%.1fs" % (self.pid, self.tier, self.seed, self.states, self.judge_states,
@@ -401,10 +406,15 @@ def main(argv=None):
     os.environ.setdefault("PYTHONHASHSEED", "0")
     try:
         mod = importlib.import_module("vf.props." + a.pid)
-        run = Run(a.pid, a.tier, seed, level=getattr(mod, "LEVEL", "model_checking"))
+        rp = None
         if a.replay:
             with open(a.replay) as f:
                 rp = json.load(f)
+        run = Run(a.pid, a.tier, seed, level=getattr(mod, "LEVEL", "model_checking"), is_replay=bool(a.replay))
+        if a.replay and isinstance(rp.get("scenario"), dict) and rp["scenario"].get("suite_node"):
+            from vf import suite
+            suite.replay_node(run, rp, (a.pid + ".",))
+        elif a.replay:
             mod.check(run, replay=rp)
         else:
             mod.check(run)
